@@ -646,3 +646,148 @@ Section RMatrix.
     - exists k. apply in_seq in Hin. split; [lia|exact E].
   Qed.
 End RMatrix.
+
+(* ====================================================================== Part 3: a dimension argument *)
+Section LinDep.
+  Variable rnd : R -> R.
+  Notation Op := (R_ops rnd).
+  Notation rsum := (sumn Op).
+
+  (* ---- square matrices: a left inverse is a right inverse (dimension argument) ------------------ *)
+  Lemma all_zero_or_exists m (f : nat -> R) :
+    (forall k, (k < m)%nat -> f k = 0) \/ (exists k, (k < m)%nat /\ f k <> 0).
+  Proof.
+    induction m as [|m IH]; [left; intros; lia|].
+    destruct IH as [H|(k & Hk & Hf)]; [|right; exists k; split; [lia|exact Hf]].
+    destruct (Req_dec (f m) 0) as [E|E]; [|right; exists m; split; [lia|exact E]].
+    left. intros k Hk. destruct (Nat.eq_dec k m) as [->|]; [exact E|apply H; lia].
+  Qed.
+
+  Definition swapi (a b k : nat) : nat := if Nat.eqb k a then b else if Nat.eqb k b then a else k.
+
+  Lemma swapi_invol a b k : swapi a b (swapi a b k) = k.
+  Proof.
+    unfold swapi. destruct (Nat.eqb_spec k a) as [->|Ha].
+    - destruct (Nat.eqb_spec b a) as [->|Hb]; [reflexivity|]. rewrite Nat.eqb_refl. reflexivity.
+    - destruct (Nat.eqb_spec k b) as [->|Hb].
+      + rewrite Nat.eqb_refl. reflexivity.
+      + destruct (Nat.eqb_spec k a); [contradiction|]. destruct (Nat.eqb_spec k b); [contradiction|reflexivity].
+  Qed.
+  Lemma swapi_lt a b k m : (a < m)%nat -> (b < m)%nat -> (k < m)%nat -> (swapi a b k < m)%nat.
+  Proof. intros. unfold swapi. destruct (Nat.eqb k a); [assumption|]. destruct (Nat.eqb k b); assumption. Qed.
+
+  Lemma rsum_swapi m a b g : (a < m)%nat -> (b < m)%nat -> rsum m (fun k => g (swapi a b k)) = rsum m g.
+  Proof.
+    intros Ha Hb. destruct (Nat.eq_dec a b) as [->|Hab].
+    { apply sumn_ext. intros k _. unfold swapi. destruct (Nat.eqb_spec k b) as [->|]; reflexivity. }
+    rewrite (sumn_ext Op m _ (fun k => g k + ((if Nat.eqb k a then g b - g a else 0) + (if Nat.eqb k b then g a - g b else 0)))).
+    - rewrite !(rsum_plus rnd).
+      rewrite (rsum_delta_r rnd m a (fun _ => g b - g a) Ha), (rsum_delta_r rnd m b (fun _ => g a - g b) Hb). lra.
+    - intros k _. unfold swapi. destruct (Nat.eqb_spec k a) as [->|Hka].
+      + destruct (Nat.eqb_spec a b); [contradiction|]. lra.
+      + destruct (Nat.eqb_spec k b) as [->|]; lra.
+  Qed.
+
+  (* m vectors v 0 .. v (m-1) with n coordinates each *)
+  Definition lin_dep (m n : nat) (v : nat -> nat -> R) : Prop :=
+    exists c : nat -> R, (exists k, (k < m)%nat /\ c k <> 0) /\ forall i, (i < n)%nat -> rsum m (fun k => c k * v k i) = 0.
+
+  (* n + 1 vectors in R^n are linearly dependent *)
+  Lemma more_vectors_dependent n : forall v, lin_dep (S n) n v.
+  Proof.
+    induction n as [|n IH]; intros v.
+    - exists (fun _ => 1). split; [exists 0%nat; split; [lia|lra]|intros; lia].
+    - destruct (all_zero_or_exists (S (S n)) (fun k => v k n)) as [HZ|(j & Hj & Hp)].
+      + (* every vector has last coordinate 0 *)
+        destruct (IH v) as (c & (k0 & Hk0 & Hc0) & Hsum).
+        exists (fun k => if Nat.eqb k (S n) then 0 else c k). split.
+        * exists k0. split; [lia|]. destruct (Nat.eqb_spec k0 (S n)); [lia|exact Hc0].
+        * intros i Hi. rewrite (rsum_S rnd). rewrite Nat.eqb_refl, Rmult_0_l, Rplus_0_r.
+          destruct (Nat.eq_dec i n) as [->|Hin].
+          -- apply (rsum_zero_ext rnd). intros k Hk. rewrite HZ by lia. lra.
+          -- rewrite <- (Hsum i) by lia. apply sumn_ext. intros k Hk.
+             destruct (Nat.eqb_spec k (S n)); [lia|reflexivity].
+      + (* v j has a non-zero last coordinate: move it to position S n and eliminate *)
+        set (s := swapi j (S n)).
+        set (u := fun k => v (s k)).
+        assert (Hup : u (S n) n <> 0).
+        { unfold u, s, swapi. destruct (Nat.eqb_spec (S n) j) as [<-|]; [exact Hp|]. rewrite Nat.eqb_refl. exact Hp. }
+        set (pv := u (S n) n) in *.
+        set (w := fun k i => u k i - u k n / pv * u (S n) i).
+        destruct (IH w) as (c & (k0 & Hk0 & Hc0) & Hsum).
+        assert (Hsum' : forall i, (i < S n)%nat -> rsum (S n) (fun k => c k * w k i) = 0).
+        { intros i Hi. destruct (Nat.eq_dec i n) as [->|Hin]; [|apply Hsum; lia].
+          apply (rsum_zero_ext rnd). intros k _. unfold w. fold pv. field_simplify; [lra|exact Hup]. }
+        set (t := rsum (S n) (fun k => c k * u k n)).
+        set (d := fun k => if Nat.eqb k (S n) then - (t / pv) else c k).
+        assert (Hd : forall i, (i < S n)%nat -> rsum (S (S n)) (fun k => d k * u k i) = 0).
+        { intros i Hi. rewrite (rsum_S rnd). unfold d at 2. rewrite Nat.eqb_refl.
+          rewrite (sumn_ext Op (S n) _ (fun k => c k * w k i + c k * u k n * (u (S n) i / pv))).
+          - rewrite (rsum_plus rnd), Hsum' by exact Hi. rewrite (rsum_mult_r rnd). fold t. field. exact Hup.
+          - intros k Hk. unfold d. destruct (Nat.eqb_spec k (S n)); [lia|]. unfold w. field. exact Hup. }
+        exists (fun k => d (s k)). split.
+        * exists (s k0). split; [apply swapi_lt; lia|]. unfold s. rewrite swapi_invol.
+          unfold d. destruct (Nat.eqb_spec k0 (S n)); [lia|exact Hc0].
+        * intros i Hi. rewrite <- (Hd i Hi).
+          rewrite <- (rsum_swapi (S (S n)) j (S n) (fun k => d k * u k i)) by lia.
+          apply sumn_ext. intros k _. fold s. unfold u. unfold s at 3. rewrite swapi_invol. reflexivity.
+  Qed.
+
+  (* B A = I  ->  A B = I   (n x n) *)
+  Theorem left_inv_right_inv n (A B : mat R) :
+    meq n (mmul Op n B A) (mid Op) -> meq n (mmul Op n A B) (mid Op).
+  Proof.
+    intros HBA.
+    (* for every j: some x with A x = e_j *)
+    assert (Hsurj : forall j, (j < n)%nat -> exists x : vec R, forall i, (i < n)%nat -> rsum n (fun k => A i k * x k) = mid Op i j).
+    { intros j Hj.
+      destruct (more_vectors_dependent n (fun k i => if Nat.eqb k n then mid Op i j else A i k)) as (c & (k0 & Hk0 & Hc0) & Hsum).
+      assert (Hsum' : forall i, (i < n)%nat -> rsum n (fun k => A i k * c k) + c n * mid Op i j = 0).
+      { intros i Hi. rewrite <- (Hsum i Hi), (rsum_S rnd), Nat.eqb_refl. f_equal.
+        apply sumn_ext. intros k Hk. destruct (Nat.eqb_spec k n); [lia|]. lra. }
+      destruct (Req_dec (c n) 0) as [E|E].
+      - (* then A c = 0, hence c = B A c = 0: contradiction *)
+        exfalso.
+        assert (Hc : forall l, (l < n)%nat -> c l = 0).
+        { intros l Hl.
+          assert (E1 : rsum n (fun i => B l i * rsum n (fun k => A i k * c k)) = 0).
+          { apply (rsum_zero_ext rnd). intros i Hi. specialize (Hsum' i Hi). rewrite E in Hsum'.
+            replace (rsum n (fun k => A i k * c k)) with 0 by lra. lra. }
+          rewrite (sumn_ext Op n _ (fun i => rsum n (fun k => B l i * A i k * c k))) in E1.
+          2:{ intros i _. rewrite <- (rsum_mult_l rnd). apply sumn_ext. intros; lra. }
+          rewrite (rsum_swap rnd) in E1.
+          rewrite (sumn_ext Op n _ (fun k => if Nat.eqb l k then c k else 0)) in E1.
+          - rewrite (rsum_delta_l rnd n l c Hl) in E1. exact E1.
+          - intros k Hk. rewrite (rsum_mult_r rnd), <- (rmmul_get rnd n B A l k Hl Hk), (HBA l k Hl Hk).
+            unfold mid. cbn [f0 f1 R_ops]. destruct (Nat.eqb l k); lra. }
+        destruct (Nat.eq_dec k0 n) as [->|]; [contradiction|]. apply Hc0, Hc. lia.
+      - exists (fun k => - c k / c n). intros i Hi. specialize (Hsum' i Hi).
+        rewrite (sumn_ext Op n _ (fun k => (A i k * c k) * (- / c n))) by (intros; field; exact E).
+        rewrite (rsum_mult_r rnd). replace (rsum n (fun k => A i k * c k)) with (- (c n * mid Op i j)) by lra.
+        field. exact E. }
+    intros i j Hi Hj. destruct (Hsurj j Hj) as (x & Hx).
+    (* B e_j = x *)
+    assert (HB : forall k, (k < n)%nat -> B k j = x k).
+    { intros k Hk.
+      assert (E1 : rsum n (fun i' => B k i' * mid Op i' j) = B k j).
+      { rewrite (sumn_ext Op n _ (fun i' => if Nat.eqb i' j then B k i' else 0)).
+        - apply (rsum_delta_r rnd n j (fun i' => B k i') Hj).
+        - intros i' _. unfold mid. cbn [f0 f1 R_ops]. destruct (Nat.eqb i' j); lra. }
+      rewrite <- E1.
+      rewrite (sumn_ext Op n _ (fun i' => rsum n (fun l => B k i' * A i' l * x l))).
+      2:{ intros i' Hi'. rewrite <- (Hx i' Hi'), <- (rsum_mult_l rnd). apply sumn_ext. intros; lra. }
+      rewrite (rsum_swap rnd).
+      rewrite (sumn_ext Op n _ (fun l => if Nat.eqb k l then x l else 0)).
+      - apply (rsum_delta_l rnd n k x Hk).
+      - intros l Hl. rewrite (rsum_mult_r rnd), <- (rmmul_get rnd n B A k l Hk Hl), (HBA k l Hk Hl).
+        unfold mid. cbn [f0 f1 R_ops]. destruct (Nat.eqb k l); lra. }
+    rewrite (rmmul_get rnd) by assumption. rewrite <- (Hx i Hi). apply sumn_ext. intros k Hk.
+    rewrite HB by exact Hk. reflexivity.
+  Qed.
+
+  (* orthonormal columns of a square matrix => orthonormal rows: Q^T Q = I alone is the whole contract *)
+  Corollary morth_cols_rows n (Q : mat R) : morth_cols Op n Q -> morth_rows Op n Q.
+  Proof. unfold morth_cols, morth_rows. apply left_inv_right_inv. Qed.
+  Corollary morth_of_cols n (Q : mat R) : morth_cols Op n Q -> morth Op n Q.
+  Proof. intros H. split; [exact H|apply morth_cols_rows; exact H]. Qed.
+End LinDep.
